@@ -40,3 +40,23 @@ Theorem C11_subslot : forall p, wf p -> forall t f e,
   exists bs, Booked p (sschedule p) t f e bs.
 Proof. exact subslot_effort. Qed.
 Print Assumptions C11_subslot.
+
+(* ---- second granularity, teams with limits (Model/SubSlotTeam.v), for EVERY project (no well-formedness needed):
+   every cell the scheduler writes, every booking event it records for the limits and every ledger entry of the final
+   state lies in a slot 0 .. tp_upper - nothing outside the horizon is touched, whatever bounds, gaps and efforts say *)
+Require Import SP.Model.SubSlotTeam SP.Proofs.SubSlotTeamProofs SP.Proofs.SubSlotTeamHorizon.
+Theorem C11_subslot_teams : forall p,
+  (forall r s, In (r, s) (stouched (tschedule p)) -> s <= tp_upper p) /\
+  (forall t r s, In (t, r, s) (sbooked (tschedule p)) -> s <= tp_upper p) /\
+  (forall t r s, SP.Proofs.SubSlotProofs.tent t (cells (tschedule p) r s) <> nil -> s <= tp_upper p).
+Proof. exact team_horizon. Qed.
+Print Assumptions C11_subslot_teams.
+
+(* ... and for every well-formed team project (slot length > 0, efficiencies > 0, positive efforts) every reported start -
+   of a milestone or of a task with work, placed by the pre-pass or by the main loop - lies inside the horizon:
+   0 <= start < (tp_upper + 1) * G; with C06_subslot_teams (start <= end) no date before the project start is reported *)
+From Coq Require Import ZArith.
+Theorem C11_subslot_teams_starts : forall p, twf p -> forall t f e, sleaf_dates (tschedule p) t = Some (f, e) ->
+  (0 <= f < (Z.of_nat (tp_upper p) + 1) * tp_G p)%Z.
+Proof. exact team_starts_in_horizon. Qed.
+Print Assumptions C11_subslot_teams_starts.
